@@ -293,6 +293,7 @@ func runC08(c *Ctx, r *Report) {
 
 	// shared: sticky end marker
 	sub := NewReport("C16", r.Tier, c)
+	sub.Sub = true
 	runC16(c, sub)
 	for _, o := range sub.Obls {
 		if o.Rule != "C16.R4" {
